@@ -191,6 +191,15 @@ def sessions(tier: str, seed: int, kinds=vloop.CLIENTS):
             log, _ = cf.run(kind, plan, twice)
             logs.append(log)
             meta.append((kind, "eof+reset", refuse, "ok", "twice"))
+    # a gateway that refuses nine attempts in a row: the pauses must grow up to the cap and stay there
+    for kind in kinds:
+        log, _ = cf.run(kind, cf.Plan(refuse=9), t_end=110.0)
+        logs.append(log)
+        meta.append((kind, "none", 9, "ok", "refused nine times"))
+        plan = cf.Plan(refuse=7)
+        log, _ = cf.run(kind, plan, fault_injector(kind, "eof", None, 60.0, plan), t_end=110.0)
+        logs.append(log)
+        meta.append((kind, "eof", 7, "ok", "refused seven times, then end of stream"))
     return logs, meta
 
 
